@@ -58,6 +58,62 @@ def guard(f):
         return {"exc": type(e).__name__, "msg": str(e)[:120]}
 
 
+# ------------------------------------------------------------------ exact Gaussian rationals
+class CF:
+    """exact element of Q(i) (the Lean side runs the same model over GT.QI)"""
+    __slots__ = ("re", "im")
+
+    def __init__(self, re, im=0):
+        self.re, self.im = F(re), F(im)
+
+    @staticmethod
+    def of(x):
+        return x if isinstance(x, CF) else CF(x)
+
+    def __add__(self, o):
+        o = CF.of(o)
+        return CF(self.re + o.re, self.im + o.im)
+    __radd__ = __add__
+
+    def __neg__(self):
+        return CF(-self.re, -self.im)
+
+    def __sub__(self, o):
+        return self + (-CF.of(o))
+
+    def __rsub__(self, o):
+        return CF.of(o) - self
+
+    def __mul__(self, o):
+        o = CF.of(o)
+        return CF(self.re * o.re - self.im * o.im, self.re * o.im + self.im * o.re)
+    __rmul__ = __mul__
+
+    def __truediv__(self, o):
+        o = CF.of(o)
+        d = o.re * o.re + o.im * o.im
+        return self * CF(o.re / d, -o.im / d)
+
+    def __rtruediv__(self, o):
+        return CF.of(o) / self
+
+    def __eq__(self, o):
+        o = CF.of(o)
+        return self.re == o.re and self.im == o.im
+
+    def __ne__(self, o):
+        return not self == o
+
+    def __hash__(self):
+        return hash((self.re, self.im))
+
+    def __complex__(self):
+        return complex(float(self.re), float(self.im))
+
+    def __repr__(self):
+        return "CF(%s,%s)" % (self.re, self.im)
+
+
 # ------------------------------------------------------------------ exact matrices
 def fmul(A, B):
     return [[sum(A[i][k] * B[k][j] for k in range(len(B))) for j in range(len(B[0]))] for i in range(len(A))]
@@ -122,6 +178,15 @@ def gen_matrix(rng, n, ring="Q", kind=None):
     """random element of GL(n, Q) (or GL(n, Z)) whose float64 image is exact or nearly so"""
     if ring == "Z":
         return unimodular(rng, n)
+    if ring == "C":
+        # (real invertible) * (complex unipotent) * (Gaussian unit scalar): invertible, genuinely complex
+        G = gen_matrix(rng, n, "Q", kind)
+        U = [[CF(int(i == j)) for j in range(n)] for i in range(n)]
+        for i in range(n):
+            for j in range(i + 1, n):
+                U[i][j] = CF(0, F(rng.randint(-2, 2), rng.randint(1, 2)))
+        z = rng.choice([CF(1), CF(0, 1), CF(F(3, 5), F(4, 5)), CF(F(-5, 13), F(12, 13)), CF(0, -1)])
+        return [[z * x for x in r] for r in fmul(G, U)]
     kind = kind or rng.choice(["uni", "orth", "dyadic", "diag", "rat"])
     if kind == "uni":
         return unimodular(rng, n)
@@ -143,19 +208,47 @@ def gen_matrix(rng, n, ring="Q", kind=None):
     return Q.rinv(rng, n, 3, 3, F(1, 3))
 
 
+def enc1(x):
+    return Q.qs(x.re) + "|" + Q.qs(x.im) if isinstance(x, CF) else Q.qs(x)
+
+
+def dec1(x):
+    return CF(*map(F, x.split("|"))) if "|" in x else F(x)
+
+
 def enc(M):
-    return [[Q.qs(x) for x in r] for r in M]
+    return [[enc1(x) for x in r] for r in M]
 
 
 def dec(M):
-    return [[F(x) for x in r] for r in M]
+    return [[dec1(x) for x in r] for r in M]
 
 
 def tonp(M, ring="Q", cplx=False):
     if ring == "Z":
         return np.array([[int(F(x)) for x in r] for r in M], dtype=np.int64)
+    if ring == "C":
+        return np.array([[complex(CF.of(dec1(x))) for x in r] for r in M], dtype=complex)
     a = np.array([[float(F(x)) for x in r] for r in M], dtype=float)
     return a.astype(complex) if cplx else a
+
+
+def decm(a):
+    """driver output (nested lists of "p/q" or "re|im") -> numpy array"""
+    def go(x):
+        if isinstance(x, list):
+            return [go(y) for y in x]
+        if "|" in x:
+            re, im = x.split("|")
+            return complex(float(F(re)), float(F(im)))
+        return float(F(x))
+    out = go(a)
+    return np.array(out, dtype=complex if np.iscomplexobj(np.array(out)) else float)
+
+
+def asl(x, ring="Q"):
+    """implementation array -> nested list (complex kept for ring C)"""
+    return np.asarray(x, dtype=complex if ring == "C" else float).tolist()
 
 
 # ------------------------------------------------------------------ names and words
@@ -213,7 +306,7 @@ def all_words(alphabet, maxlen):
 
 # ------------------------------------------------------------------ representation specs
 def rand_spec(rng, ring=None, simple=None, n=None, names=None, reassign=True, kind=None):
-    ring = ring or rng.choice(["Q", "Q", "Q", "Z"])
+    ring = ring or rng.choice(["Q", "Q", "Q", "Z", "C"])
     simple = rng.random() < 0.7 if simple is None else simple
     n = n or rng.choice([1, 2, 2, 3, 3, 4, 5])
     names = names or rand_names(rng, simple)
